@@ -63,6 +63,7 @@ def gen_config(rng, profile="any", tier="quick"):
         "burn_in": None,
         "data_via": rng.choice(["env", "handler_symbols", "handler_listdir"]),
         "adjust": True,
+        "print_events": rng.random() < 0.08,       # the library's default is to print every event
     }
     # ---- universe -------------------------------------------------------------------------
     dynamic = rng.random() < (0.7 if profile == "C19" else 0.35)
@@ -561,9 +562,22 @@ def run_session(cfg, market, monitors=True, dirpath=None, shared_source=None, ho
     from qstrader.execution import order as _order_mod
     real_uuid = _order_mod.uuid
     _order_mod.uuid = _UuidSeam(real_uuid, uuid_seed)
+    real_out = None
+    if cfg.get("print_events"):
+        import io
+        import sys
+        from qstrader import settings
+        real_out = sys.stdout
+        sys.stdout = io.StringIO()
+        settings.PRINT_EVENTS = True
     try:
         return _run_session(cfg, market, monitors, dirpath, shared_source, hooks, shared_inputs)
     finally:
+        if real_out is not None:
+            import sys
+            from qstrader import settings
+            settings.PRINT_EVENTS = False
+            sys.stdout = real_out
         _order_mod.uuid = real_uuid
         # collection timing of the cyclic garbage a session leaves behind would otherwise depend on the
         # allocation history of the process: collect at a fixed point so that a run is a function of its plan
